@@ -159,7 +159,9 @@ func cmdVerify(args []string) {
 				if strings.Contains(o.Name, *dump) {
 					fmt.Println(";;;;", o.Name, o.Pos)
 					fmt.Println(c.queryText(o, false))
-					break
+					if os.Getenv("VCGO_DUMP_ALL") == "" {
+						break
+					}
 				}
 			}
 			continue
